@@ -4,6 +4,7 @@ import (
 	"fmt"
 	"math"
 	"math/big"
+	"regexp"
 	"strconv"
 	"strings"
 	"testing"
@@ -71,9 +72,15 @@ func (o numOp) rat(receiver bool) (r *big.Rat, ok, unspecified bool) {
 	return nil, false, true // nil operand: unspecified
 }
 
+var decimalWithExponent = regexp.MustCompile(`^-?[0-9]+(\.[0-9]+)?[eE][+-]?[0-9]+$`)
+
+// plainDecimal: digits with an optional sign, fraction and exponent - what everybody agrees spells a number.
 func plainDecimal(s string) bool {
 	if s == "" {
 		return false
+	}
+	if decimalWithExponent.MatchString(s) {
+		return true
 	}
 	for i, c := range s {
 		if !(c >= '0' && c <= '9' || c == '.' || (c == '-' && i == 0)) {
@@ -348,10 +355,11 @@ func c17Universe() []numOp {
 	for k := -20; k <= 20; k++ {
 		u = append(u, numOp{Kind: "float", F: float64(k) / 4})
 	}
-	for _, f := range []float64{1 << 31, float64(1<<53 - 1), 0.125, 1e15 + 0.5} {
+	// (powers of two far from 1: exactly representable however small or large)
+	for _, f := range []float64{1 << 31, float64(1<<53 - 1), 0.125, 1e15 + 0.5, 1.0 / (1 << 32), 1.0 / (1 << 40), -1.0 / (1 << 32), 1 << 40, 3.0 / (1 << 34)} {
 		u = append(u, numOp{Kind: "float", F: f})
 	}
-	for _, s := range []string{"3", "-2.5", "07", "abc", "", "1x", " 4"} {
+	for _, s := range []string{"3", "-2.5", "07", "abc", "", "1x", " 4", "25e-2", "1e3", "1E+2", "-5e-1"} {
 		u = append(u, numOp{Kind: "str", S: s})
 	}
 	u = append(u, numOp{Kind: "nil"})
